@@ -456,7 +456,7 @@ pub fn gen_ref(r: &mut Rng, cfg: &GenCfg) -> Ref {
         None
     };
     let abs = allowed(cfg, "abs");
-    let kind = match r.below(10) {
+    let kind = match r.below(12) {
         0..=4 => RefKind::Cell(gen_cellref(r, cfg)),
         5..=7 if allowed(cfg, "range") => {
             let a = gen_cellref(r, cfg);
@@ -465,13 +465,15 @@ pub fn gen_ref(r: &mut Rng, cfg: &GenCfg) -> Ref {
             b.row = r.range(a.row, a.row.max(cfg.h));
             RefKind::Range(a, b)
         }
-        8 if allowed(cfg, "wholecol") => {
+        8 | 9 if allowed(cfg, "wholecol") => {
             let a = r.range(1, cfg.w);
-            RefKind::Cols(a, abs && r.chance(1, 4), r.range(a, cfg.w), abs && r.chance(1, 4))
+            let both = abs && r.chance(1, 4);
+            RefKind::Cols(a, both || abs && r.chance(1, 4), r.range(a, cfg.w), both || abs && r.chance(1, 4))
         }
-        9 if allowed(cfg, "wholerow") => {
+        10 | 11 if allowed(cfg, "wholerow") => {
             let a = r.range(1, cfg.h);
-            RefKind::Rows(a, abs && r.chance(1, 4), r.range(a, cfg.h), abs && r.chance(1, 4))
+            let both = abs && r.chance(1, 4);
+            RefKind::Rows(a, both || abs && r.chance(1, 4), r.range(a, cfg.h), both || abs && r.chance(1, 4))
         }
         _ => RefKind::Cell(gen_cellref(r, cfg)),
     };
